@@ -22,6 +22,7 @@ Variable dispatch : list (list string * action).
 Variable default : action.
 Variable visits : action -> list string.
 Variable kinds : list (string * list string * list string).   (* name, isinstance-of, statement fields *)
+Variable jumps : list string.   (* classes after which codegen stops processing a suite *)
 
 Definition ancestors (k : string) : list string :=
   match find (fun e => String.eqb (fst (fst e)) k) kinds with
@@ -44,6 +45,18 @@ Fixpoint slot (f : string) (slots : list (string * list tree)) : list tree :=
 
 Inductive result := Done (seen : bool) | NotImpl | OutOfFuel.
 
+Definition kind_of (t : tree) : string := match t with Node k _ => k end.
+Definition slots_of (t : tree) : list (string * list tree) := match t with Node _ s => s end.
+
+(* codegen stops after a return / break / continue: what follows in the same suite is dead code *)
+Definition is_jump (t : tree) : bool := existsb (fun c => smem c (ancestors (kind_of t))) jumps.
+
+Fixpoint live (l : list tree) : list tree :=
+  match l with
+  | [] => []
+  | x :: r => if is_jump x then [x] else x :: live r
+  end.
+
 (* the statement fields a handler descends into *)
 Definition vis (a : action) : list string :=
   match a with
@@ -58,7 +71,7 @@ Fixpoint run_list (l : list tree) (seen : bool) : result :=
   match l with
   | [] => Done seen
   | x :: r => match rn x seen with
-              | Done s' => run_list r s'
+              | Done s' => if is_jump x then Done s' else run_list r s'
               | e => e
               end
   end.
@@ -109,17 +122,14 @@ Definition front_status (fuel : nat) (top : list tree) : status :=
   | [] => SAssertion          (* IndexError in the implementation: refused as well *)
   end.
 
-Definition kind_of (t : tree) : string := match t with Node k _ => k end.
-Definition slots_of (t : tree) : list (string * list tree) := match t with Node _ s => s end.
-
 (* the nodes the front end looks at below t (t included) *)
 Inductive Visited : tree -> tree -> Prop :=
 | V_self t : Visited t t
-| V_child t f c n : In f (vis (action_of (kind_of t))) -> In c (slot f (slots_of t)) -> Visited c n ->
+| V_child t f c n : In f (vis (action_of (kind_of t))) -> In c (live (slot f (slots_of t))) -> Visited c n ->
     Visited t n.
 
 Lemma visited_inv t n : Visited t n ->
-  n = t \/ exists f c, In f (vis (action_of (kind_of t))) /\ In c (slot f (slots_of t)) /\ Visited c n.
+  n = t \/ exists f c, In f (vis (action_of (kind_of t))) /\ In c (live (slot f (slots_of t))) /\ Visited c n.
 Proof. destruct 1 as [t|t f c n Hf Hc Hv]; [left; reflexivity|right; eauto]. Qed.
 
 Definition Good (t : tree) (seen : bool) (s' : bool) : Prop :=
@@ -130,33 +140,38 @@ Definition Good (t : tree) (seen : bool) (s' : bool) : Prop :=
   (seen = true -> s' = true) /\
   (action_of (kind_of t) = AFun ->
      s' = true /\
-     forall f c n, In f (vis AFun) -> In c (slot f (slots_of t)) -> Visited c n ->
+     forall f c n, In f (vis AFun) -> In c (live (slot f (slots_of t))) -> Visited c n ->
                    action_of (kind_of n) <> AFun).
 
 Definition GoodList (l : list tree) (seen s' : bool) : Prop :=
-  (forall c n, In c l -> Visited c n -> action_of (kind_of n) <> ARefuse) /\
-  (seen = true -> forall c n, In c l -> Visited c n -> action_of (kind_of n) <> AFun) /\
+  (forall c n, In c (live l) -> Visited c n -> action_of (kind_of n) <> ARefuse) /\
+  (seen = true -> forall c n, In c (live l) -> Visited c n -> action_of (kind_of n) <> AFun) /\
   (seen = true -> s' = true).
 
 Lemma run_list_good rn :
   (forall t seen s', rn t seen = Done s' -> Good t seen s') ->
   forall l seen s', run_list rn l seen = Done s' -> GoodList l seen s'.
 Proof.
-  intros Hrn. induction l as [|x r IH]; intros seen s' H; cbn in H.
+  intros Hrn. induction l as [|x r IH]; intros seen s' H; cbn [run_list] in H.
   - injection H as <-. repeat split; auto; intros; contradiction.
   - destruct (rn x seen) as [s1| |] eqn:Ex; try discriminate.
-    destruct (Hrn _ _ _ Ex) as [A [B [C _]]]. destruct (IH _ _ H) as [A' [B' C']].
-    repeat split.
-    + intros c n [<-|Hc] Hv; [apply A; exact Hv|eapply A'; eauto].
-    + intros Hs c n [<-|Hc] Hv; [apply B; auto|exact (B' (C Hs) c n Hc Hv)].
-    + intros Hs. auto.
+    destruct (Hrn _ _ _ Ex) as [A [B [C _]]]. unfold GoodList. cbn [live].
+    destruct (is_jump x).
+    + injection H as <-. repeat split.
+      * intros c n [<-|[]] Hv. apply A; exact Hv.
+      * intros Hs c n [<-|[]] Hv. apply B; auto.
+      * exact C.
+    + destruct (IH _ _ H) as [A' [B' C']]. repeat split.
+      * intros c n [<-|Hc] Hv; [apply A; exact Hv|eapply A'; eauto].
+      * intros Hs c n [<-|Hc] Hv; [apply B; auto|exact (B' (C Hs) c n Hc Hv)].
+      * intros Hs. auto.
 Qed.
 
 Lemma run_fields_good rn slots :
   (forall t seen s', rn t seen = Done s' -> Good t seen s') ->
   forall fs seen s', run_fields rn slots fs seen = Done s' ->
-    (forall g c n, In g fs -> In c (slot g slots) -> Visited c n -> action_of (kind_of n) <> ARefuse) /\
-    (seen = true -> forall g c n, In g fs -> In c (slot g slots) -> Visited c n ->
+    (forall g c n, In g fs -> In c (live (slot g slots)) -> Visited c n -> action_of (kind_of n) <> ARefuse) /\
+    (seen = true -> forall g c n, In g fs -> In c (live (slot g slots)) -> Visited c n ->
                     action_of (kind_of n) <> AFun) /\
     (seen = true -> s' = true).
 Proof.
@@ -226,21 +241,22 @@ Qed.
 Theorem front_accepts_only_supported fuel t0 rest :
   front_status fuel (t0 :: rest) = SOk ->
   action_of (kind_of t0) = AFun ->
-  (forall c n, In c (t0 :: rest) -> Visited c n -> action_of (kind_of n) <> ARefuse) /\
+  (forall c n, In c (live (t0 :: rest)) -> Visited c n -> action_of (kind_of n) <> ARefuse) /\
   (forall n, Visited t0 n -> action_of (kind_of n) = AFun -> n = t0) /\
-  (forall c n, In c rest -> Visited c n -> action_of (kind_of n) <> AFun).
+  (is_jump t0 = false -> forall c n, In c (live rest) -> Visited c n -> action_of (kind_of n) <> AFun).
 Proof.
   unfold front_status. destruct t0 as [k slots]. destruct (smem "FunctionDef" (ancestors k)); [|discriminate].
   destruct (run_list (run_node fuel) (Node k slots :: rest) false) as [s'| |] eqn:E; try discriminate.
   intros _ Hfun.
   destruct (run_list_good (run_node fuel) (run_node_good fuel) _ _ _ E) as [A _].
-  cbn in E. destruct (run_node fuel (Node k slots) false) as [s1| |] eqn:E0; try discriminate.
+  cbn [run_list] in E. destruct (run_node fuel (Node k slots) false) as [s1| |] eqn:E0; try discriminate.
   destruct (run_node_good fuel _ _ _ E0) as [_ [_ [_ G]]]. destruct (G Hfun) as [Hs1 Hbelow].
-  destruct (run_list_good (run_node fuel) (run_node_good fuel) _ _ _ E) as [_ [B _]].
   split; [exact A|]. split.
   - intros n Hv Hf. destruct (visited_inv _ _ Hv) as [->|[g [c [Hg [Hc Hv']]]]]; [reflexivity|].
     exfalso. cbn in Hg, Hc. cbn in Hfun. rewrite Hfun in Hg. exact (Hbelow g c n Hg Hc Hv' Hf).
-  - subst s1. intros c n Hc Hv. exact (B eq_refl c n Hc Hv).
+  - subst s1. intros Hj. rewrite Hj in E.
+    destruct (run_list_good (run_node fuel) (run_node_good fuel) _ _ _ E) as [_ [B _]].
+    intros c n Hc Hv. exact (B eq_refl c n Hc Hv).
 Qed.
 
 (* ---------- every statement position is looked at ---------- *)
@@ -250,10 +266,11 @@ Definition stmt_fields (k : string) : list string :=
   | None => []
   end.
 
-(* all statements below t, through every statement-list field of every node *)
+(* all live statements below t (not after a return / break / continue in their
+   suite), through every statement-list field of every node *)
 Inductive Desc : tree -> tree -> Prop :=
 | D_self t : Desc t t
-| D_child t f c n : In f (stmt_fields (kind_of t)) -> In c (slot f (slots_of t)) -> Desc c n -> Desc t n.
+| D_child t f c n : In f (stmt_fields (kind_of t)) -> In c (live (slot f (slots_of t))) -> Desc c n -> Desc t n.
 
 (* a handler that descends visits all statement fields of its class; a class
    handled as a leaf has none *)
@@ -302,14 +319,16 @@ Qed.
 Theorem front_accepts_nothing_unsupported fuel t0 rest :
   covers = true ->
   front_status fuel (t0 :: rest) = SOk -> action_of (kind_of t0) = AFun ->
-  forall c n, In c (t0 :: rest) -> Desc c n ->
+  forall c n, In c (live (t0 :: rest)) -> Desc c n ->
     action_of (kind_of n) <> ARefuse /\ (action_of (kind_of n) = AFun -> n = t0).
 Proof.
   intros Hcov Hok Hfun c n Hc Hd.
   destruct (front_accepts_only_supported fuel t0 rest Hok Hfun) as [A [B C]].
   assert (Hv : Visited c n) by (apply desc_visited; auto; intros m Hm; eapply A; eauto).
-  split; [eapply A; eauto|]. intros Hf. destruct Hc as [<-|Hc]; [apply B; assumption|].
-  exfalso. exact (C c n Hc Hv Hf).
+  split; [eapply A; eauto|]. intros Hf. cbn [live] in Hc.
+  destruct (is_jump t0) eqn:Hj.
+  - destruct Hc as [<-|[]]. apply B; assumption.
+  - destruct Hc as [<-|Hc]; [apply B; assumption|]. exfalso. exact (C eq_refl c n Hc Hv Hf).
 Qed.
 
 End Dispatcher.
